@@ -26,7 +26,7 @@ Proof.
   - intros h. apply iff_sym. apply HB.
 Qed.
 
-Lemma lfp_perm R R' (B : factset) (E E' : list fact) :
+Lemma lfp_perm R R' (E E' : list fact) :
   Permutation R R' -> Permutation E E' ->
   forall f, lfp R (fun g => In g E) f <-> lfp R' (fun g => In g E') f.
 Proof.
@@ -100,7 +100,7 @@ Proof.
   - econstructor.
     + destruct Hh as [a s pvs f u He Hf Hm | a s pvs He Hall | p s us u He Hu].
       * eapply holds_atom; eauto. apply Hsel; [exact Hf|]. simpl. left.
-        apply match_fact_pred in Hm. exact Hm.
+        apply match_fact_pred in Hm. symmetry. exact Hm.
       * eapply holds_neg; eauto. intros f Hf.
         destruct (match_fact (apred a) pvs s f) eqn:Hm; auto.
         apply match_fact_pred in Hm as Hp.
@@ -130,7 +130,7 @@ Proof.
   induction layers as [|l0 rest IH]; intros p i H; simpl in *; [discriminate|].
   destruct (memZ p l0) eqn:Hm.
   - apply in_or_app. left. apply memZ_spec. exact Hm.
-  - destruct (layer_of rest p) eqn:Hl; [|discriminate]. apply in_or_app. right. eapply IH. reflexivity.
+  - destruct (layer_of rest p) eqn:Hl; [|discriminate]. apply in_or_app. right. eapply IH. exact Hl.
 Qed.
 
 Lemma in_concat_split (L : list (list Z)) p :
